@@ -13,7 +13,7 @@ LEVEL = "exploration"
 CATS = ["sources", "outputs", "attachments", "metadata", "id", "details"]
 RULE = ("all 64 subsets S of {sources, outputs, attachments, metadata, id, details} x 3 routes: positive flags naming the complement "
         "(real nbdiff parser + process_diff_flags), negative flags, and an 'Ignore' mapping (True per path, ['execution_count'] key lists "
-        "for details) given to set_notebook_diff_ignores or through an nbdime_config.json read by ConfigBackedParser; pairs from the "
+        "for details) given to set_notebook_diff_ignores or through an nbdime_config.json read by ConfigBackedParser; in addition custom key lists on /metadata and /cells/*/metadata (tags, kernelspec, container-valued keys) as docs/source/config.rst shows; pairs from the "
         "C01 related stream enriched with id-only, attachment-only, output-metadata and execution-count changes plus, for every S, a "
         "pair whose differences are confined to S minus {sources}. Oracles: (1) no op of the diff lies at or below a path of an "
         "ignored category (whole-cell / whole-output insertions excluded); (2) projection of patch(A,d) with ignored categories erased "
@@ -21,7 +21,7 @@ RULE = ("all 64 subsets S of {sources, outputs, attachments, metadata, id, detai
         "unconfigured one and the table is back to defaults. Non-trivial: S non-empty and the unconfigured diff touches a category in S; "
         "distinct by (S, route, pair).")
 FLOOR = {"quick": 1500, "thorough": 20000}
-REQUIRED_MONITORS = ("inside_ignored", "projected_roundtrip", "only_ignored_empty", "reset")
+REQUIRED_MONITORS = ("inside_ignored", "projected_roundtrip", "only_ignored_empty", "reset", "keylist")
 ASSUMPTIONS = ["category -> path table from set_notebook_diff_targets' docstring / CLI help / docs/source/config.rst",
                "naming some categories positively ignores all the others (documented exclusive-flag behaviour)"]
 NSHARDS = 16
@@ -260,6 +260,125 @@ def judge(col, a, b, S, route, tmp, cls, confined, base_diff):
             col.sample({"S": sorted(S), "route": route, "class": cls, "diff": pd})
 
 
+# ---- key lists: "Ignore": {"/cells/*/metadata": ["tags", ...], "/metadata": [...]} ------------------------------
+KEYLIST_PATHS = ["/cells/*/metadata", "/metadata"]
+KEYLIST_KEYS = ["tags", "x", "nested", "extra", "kernelspec", "y", "collapsed"]
+
+
+def project_keys(nb, mapping):
+    nb = copy.deepcopy(to_plain(nb))
+    for k in mapping.get("/metadata", []):
+        nb["metadata"].pop(k, None)
+    for c in nb.get("cells", []):
+        for k in mapping.get("/cells/*/metadata", []):
+            c["metadata"].pop(k, None)
+    return nb
+
+
+def judge_keylist(col, a, b, mapping, via_file, tmp, confined):
+    from .. import nbd
+    from ..gen_nb import to_node
+    import nbdime.diffing.notebooks as dn
+    import nbdime.nbdiffapp as app
+    from nbdime.args import process_diff_flags
+    col.eval()
+    nbd.hygiene()
+    dn.reset_notebook_differ()
+    if via_file:
+        with open(os.path.join(tmp, "nbdime_config.json"), "w") as f:
+            json.dump({"NbDiff": {"Ignore": mapping}}, f)
+        cwd = os.getcwd()
+        os.chdir(tmp)
+        try:
+            ns = app._build_arg_parser("nbdiff").parse_args(["a.ipynb", "b.ipynb"])
+            process_diff_flags(ns)
+        finally:
+            os.chdir(cwd)
+            os.remove(os.path.join(tmp, "nbdime_config.json"))
+        nbd.quiet_logging()
+    else:
+        dn.set_notebook_diff_ignores(mapping)
+    case = {"A": a, "B": b, "S": ["keylist"], "route": "ignore-keylist-file" if via_file else "ignore-keylist-direct", "mapping": mapping, "confined_to": confined}
+    try:
+        d = nbd.diff_notebooks(to_node(a), to_node(b))
+        p = nbd.patch_notebook(to_node(a), d)
+    except Exception as e:
+        key, tmpl = nbd.exc_key(e)
+        col.violation("diff-under-ignore-raised:%s" % key, str(e)[:200], case, "no-exception")
+        dn.reset_notebook_differ()
+        return
+    finally:
+        pass
+    dn.reset_notebook_differ()
+    pd = to_plain(d)
+    col.mon("keylist")
+    leaked = []
+    for path, op in leaf_paths(pd):
+        for base_path, keys in mapping.items():
+            for k in keys:
+                kp = base_path + "/" + k
+                if path == kp or path.startswith(kp + "/"):
+                    leaked.append(path)
+    if leaked:
+        col.violation("op-on-key-listed-in-ignore-mapping", "mapping %s: op at %s" % (mapping, sorted(set(leaked))[:3]), dict(case, diff=pd), "nothing-inside-ignored")
+    if not seq(project_keys(p, mapping), project_keys(b, mapping)):
+        col.violation("keylist-projected-roundtrip-differs", first_difference(project_keys(p, mapping), project_keys(b, mapping)), dict(case, diff=pd), "non-ignored-parts-reproduced")
+    if confined and pd and not leaked:
+        col.violation("only-listed-keys-differ-nonempty-diff", json.dumps(pd)[:200], dict(case, diff=pd), "only-ignored=>empty")
+    if canon(a) != canon(b):
+        col.nt(chash(a, b, mapping, via_file))
+        col.count("route:ignore-keylist")
+
+
+def keylist_cases(col, r, tmp, n):
+    from ..gen_nb import NBGen, validate_nb
+    from ..workloads import valid_pair
+    for j in range(n):
+        gen = NBGen(r, exotic=False)
+        mapping = {}
+        for pth in KEYLIST_PATHS:
+            if r.random() < 0.8:
+                mapping[pth] = r.sample(KEYLIST_KEYS, r.randrange(1, 4))
+        if not mapping:
+            continue
+        confined = j % 2 == 0
+        if confined:
+            a = gen.notebook(ncells=r.choice([1, 2, 3]))
+            b = copy.deepcopy(a)
+            for nbx in (a, b):
+                pass
+            # give both notebooks container values under the listed keys, differing only there
+            for pth, keys in mapping.items():
+                targets = [(a["metadata"], b["metadata"])] if pth == "/metadata" else [(ca["metadata"], cb["metadata"]) for ca, cb in zip(a["cells"], b["cells"])]
+                for ma, mb in targets:
+                    for k in keys:
+                        if k == "collapsed":
+                            continue
+                        if k == "tags":
+                            ma[k] = ["t1", "t2"]
+                            mb[k] = r.choice([["t1", "t3", "t2"], ["t2"], ["t1", "t2", "t9"]])
+                        elif k == "kernelspec":
+                            ma[k] = {"name": "python3", "display_name": "Python 3"}
+                            mb[k] = {"name": "python3", "display_name": "Python 3 (new)"}
+                        else:
+                            ma[k] = r.choice([{"k": [1, 2], "s": "text\nmore\n"}, ["a", "b"], "one\ntwo\n"])
+                            mb[k] = copy.deepcopy(ma[k])
+                            if isinstance(mb[k], dict):
+                                mb[k]["k"] = [1, 2, 3]
+                                mb[k]["s"] = "text\nMORE\n"
+                            elif isinstance(mb[k], list):
+                                mb[k].append("c")
+                            else:
+                                mb[k] = "one\nTWO\n"
+            if validate_nb(a) or validate_nb(b):
+                continue
+        else:
+            cls, a, b, rec, waste = valid_pair(gen, cls=r.choice(["related", "meta_types", "fixture_mut"]))
+            if cls is None:
+                continue
+        judge_keylist(col, a, b, mapping, via_file=(j % 4 < 2), tmp=tmp, confined=confined)
+
+
 def classify_inside(cat, path, op):
     """one mechanism per (category, place) - root causes, e.g. the atomic /cells/*/id path that
     never consults the installed ignore differ"""
@@ -289,6 +408,7 @@ def run_shard(spec):
         base_diff = to_plain(nbd.diff_notebooks(to_node(c["A"]), to_node(c["B"])))
         judge(col, c["A"], c["B"], set(c["S"]), c["route"], tmp, c.get("class"), c.get("confined_to"), base_diff)
         return col.result()
+    keylist_cases(col, r, tmp, 12 if spec["pairs_per_cfg"] <= 10 else 150)
     subsets = [set(s) for n in range(7) for s in itertools.combinations(CATS, n)]
     cnt = 0
     for S in subsets:
